@@ -155,7 +155,7 @@ def run_case(ctx, case):
     devs = []
     feats = set()
     with core.time_limit(150):
-        s = jedi.Script(text, path=str(path), project=jedi.Project(str(root), sys_path=None))
+        s = boot.fresh_script(text, path=str(path), project=jedi.Project(str(root), sys_path=None))
         if s.get_syntax_errors():
             ctx.discard("parso reports a syntax error")
             return
